@@ -12,6 +12,7 @@ chk("C03", "static analysis: exact byte-class computation + MIR decision tables 
     "by meaning) and must select the non-continuation bytes; the strict/forgiving predicates, get_up_to/get_from/get_range and the clamping "
     "str_up_to/str_from/str_range/split_at are compared (callees inlined to raw views) with std's str::get / documented "
     "clamping / panic-inside-a-char rule for every order type of (len,start,end) x boundary-ness of each indexed byte. "
+    "A subtraction the path walks past is checked against every case (an `len - 1` on an empty string is a mismatch). "
     "Symbolic in the string, so all strings and indices are covered.",
     "Trusted: rustc MIR; models of len/as_bytes/from_raw_parts. Not decided: the two boundary *search* loops "
     "(__find_next/prev_char_boundary) beyond what C07 checks.")
@@ -81,7 +82,8 @@ chk("C12", "static analysis: exact byte classes from MIR branch conditions, recu
     "Trusted: rustc MIR; Horner recurrence is checked as the one-iteration relation (induction over digits is the written step).")
 chk("C09", "static analysis: per-type MIR step tables, one-step iterator decision tables, forward/reverse isomorphism",
     "increment/decrement are decided per Step type (12 integer arms + char): finished flags = start>end / start>=end, next = "
-    "start+1 / end-1 with the overflow flag of that very operation, char arm as a decision table over the value classes of the stepped scalar x every other condition it branches on (D7FF<->E000 "
+    "start+1 / end-1 with the overflow flag of that very operation (flags computed with branches are decided as a table over "
+    "start vs end; the value of an overflowing/wrapping step may not be compared - it has wrapped at the extreme), char arm as a decision table over the value classes of the stepped scalar x every other condition it branches on (D7FF<->E000 "
     "jump, 10FFFF/0 overflow, +-1 otherwise); "
     "for_range! is decided on witness expansions for five integer types (cursor starts at `start`, body runs under "
     "cursor < end with the pre-increment value, +1 per round, exit on end <= cursor); the next/next_back of RangeIter, RangeInclusiveIter, RangeFromIter are compared as one-step tables (yielded value, new "
@@ -98,7 +100,7 @@ chk("C07", "static analysis: exact value sets, bit-provenance abstract interpret
     "string_to_usv composed with the encoder must be the identity on the scalar's bits for each length; the next/next_back "
     "of Chars/CharIndices (and the R* twins by isomorphism) are one-step tables (item, remainder, byte offsets) with the "
     "boundary search opaque, and the two boundary searches are checked as one-iteration relations (move by one, stop on the "
-    "forgiving boundary predicate decided in C03); copy() of the four iterators is a field-wise copy and rev() the other "
+    "forgiving boundary predicate, whose table (C03 TAB-PRED) is decided here too); copy() of the four iterators is a field-wise copy and rev() the other "
     "direction's type with the same fields. Covers every char/u32 and all strings symbolically.",
     "Trusted: rustc MIR; char <= 10FFFF type invariant. The boundary-search loops are decided as one-iteration relations only.")
 chk("C06", "static analysis: one-step MIR transition tables vs std's SplitInternal step, forward/reverse isomorphism",
@@ -121,7 +123,8 @@ chk("C08", "static analysis: one-step MIR decision tables over (offset,count) vi
     "remainder/as_slice accessors of forward and reversed types, iter/iter_copied and the four slice const_into_iter impls build the "
     "iterator over the given slice; array_chunks is as_chunks(slice), whose table (C02 TAB-CHUNKS) is decided here too. Symbolic in "
     "slice length, size and element type.",
-    "Trusted: rustc MIR; arithmetic facts a-b<=a, (a-b==0 <=> a==b), a%b<b. The div/mod split points are matched against an "
+    "A `len + c` on a path must be bounded above (a slice of zero-sized elements can be usize::MAX long) and no subtraction may "
+    "underflow in any case. Trusted: rustc MIR; arithmetic facts a-b<=a, (a-b==0 <=> a==b), a%b<b. The div/mod split points are matched against an "
     "idiom list (an equivalent rewrite in a new idiom is reported as unrecognised). Histories follow by the simulation "
     "argument over one-step tables (DESIGN.md App. E).")
 chk("C19", "static analysis: MIR decision tables of macro expansions in a witness crate (opaque marker closures), accept programs, macro token lint",
@@ -145,7 +148,7 @@ chk("C17", "static analysis: compile-reject / compile-accept witness programs wi
     "A generated family of about 315 reject programs, each with an accept twin differing only in the offending element, is compiled "
     "by the real stable rustc against the current konst: destructure! x {Drop type (braced/tuple struct, generic, path/type "
     "form, +-annotation), reference ({&, &mut} x 10 shapes incl. generic type-form / turbofish / self:: paths x +-annotation), "
-    "wrong field/element count (6 shapes), `..` rest (3 shapes)}, "
+    "wrong field/element count (12 shapes incl. one-element patterns and annotations naming a longer tuple or a struct), `..` rest (3 shapes)}, "
     "iterator DSL x {double reversal for every reverser and all three macros, unknown methods, consumer in adapter-only "
     "macro, arguments to argument-less methods, argument-shape guards; the first four also with the offender after each state-"
     "rebuilding adapter (map, flatten, flat_map, zip, take_while, skip, enumerate, filter) and in all three for_each! forms}, parser_method! x {non-literal pattern for all six "
@@ -194,7 +197,8 @@ chk("C11", "static analysis: MaybeUninit init-typestate (path coverage on the pr
     "MaybeUninit::new store at the pre-increment index, or a copy loop covers a variable step, or the counting argument applies "
     "(each increment preceded by its own checked store at a strictly advancing cursor: N counted stores hit N different slots); no other writer of "
     "the counter - so no control flow in a closure can reach assume_init with an unwritten slot. Element i must be the closure "
-    "applied to input i, each round under `i < len` (from_fn_!: the running index starts at 0 and advances by one per round); no "
+    "applied to input i, each round under `i < len` (from_fn_!: the running index starts at 0 and advances by one per round); a mapper given as an "
+    "expression that yields the function is evaluated once, before the loop (ARG-ONCE); no "
     "transcriber of the family declares an ordinary-looking item or generic-parameter name where caller tokens are expanded (HYGIENE); ArrayBuilder push/build/new/as_slice follow the inited protocol (a panicking path of push must leave "
     "`inited` untouched: the builder outlives the panic), Clone pushes the clone of every element of as_slice() once, in order, "
     "into a fresh builder, and only new/push/copies write `inited`; map_! forgets the consumer only after next() returned None and then builds; both collect_const passes call the "
@@ -214,7 +218,7 @@ chk("C15", "static analysis: linear-use analysis of macro expansions in a witnes
     "assert_is_empty forgets only an empty consumer; only new/empty/next/next_back/clone/copy write the counters; a panicking path of next/next_back leaves them as they were; in "
     "Clone the balance (slots written) - (slots newly covered by a counter update) is never negative where a call can unwind into "
     "the drop of the half-built clone, and zero after every round; "
-    "ArrayBuilder's Drop covers [0,inited). Exactly-once then follows from the range invariant by induction over operations.",
+    "ArrayBuilder's Drop covers [0,inited) on every path (or nothing, under !needs_drop::<T>()). Exactly-once then follows from the range invariant by induction over operations.",
     "Trusted: rustc MIR/expansion; rustc's exhaustive-pattern check for the field set; the by-value map protocol is C11's BYVAL "
     "rule. Of the unwinding paths only what the rules above name is analysed (state left behind for Drop); cleanup blocks are "
     "otherwise not walked.")
@@ -228,7 +232,8 @@ chk("C01", "static analysis: unsafe-operation inventory from MIR against an obli
     "encoder output); the other schemas by re-running the owning rules here (chunk and array casts, from_u32 scalar set, "
     "UTF-8 encoder/decoder bits, CStr scan/walk, ArrayBuilder/ArrayConsumer protocols and drop ranges, INIT typestate (incl. the "
     "length obligation and the counting argument) and "
-    "linear-use of the macro expansions). Sub-range clause: D1 provenance of all 139 safe pub fns returning slices/strs must "
+    "linear-use of the macro expansions, and the compile-time guards of destructure! (not a reference / not Drop / every field "
+    "named, for arities 1..3) that make its unsafe reads sound). Sub-range clause: D1 provenance of all 139 safe pub fns returning slices/strs must "
     "root in a parameter or the static empty slice.",
     "Trusted: rustc MIR; documented safety contracts of the std callees; repr(transparent)/MaybeUninit layout facts; the &CStr "
     "invariant; the two deprecated pointer->Option<NonNull> niche transmutes are allow-listed with the reason. Cleanup "
@@ -247,6 +252,8 @@ chk("C10", "static analysis: translation validation of macro expansions - per-it
     "method (12 (adapter,reverser) pairs, a design limitation recorded as known findings).",
     "Trusted: rustc expansion/MIR; the written equivalence between the pull-based schema and std for side-effect-free "
     "sources (DESIGN.md App. A). At most one flat_map/flatten per chain; collect_const is outside the composer (INIT for "
-    "collect_const is C11); chains whose counter is never carried round a loop are skipped and counted (TV-SKIP). HYGIENE lint: no "
+    "collect_const is C11); chains whose counter is never carried round a loop are skipped and counted (TV-SKIP). NEST2: in chains with two flattening steps every way out of a loop level continues in the level "
+    "above. SCOPE: after each closure-taking adapter a later closure's free variable is the caller's, not the earlier closure's parameter "
+    "(found F10). HYGIENE lint: no "
     "transcriber of the macro family declares an ordinary-looking item or generic-parameter name where caller tokens are expanded.",
     cat="translation_validation")
